@@ -262,8 +262,70 @@ def canon_request(m) -> list:
     return [str(m.msg_type), tags]
 
 
+class HookError(Exception):
+    """what a misbehaving application hook raises"""
+
+
+HOOKS_OF = {"cNew": 4, "cCancel": 2, "cReplace": 3}   # hook calls per builder (set_instrument, set_account, clock, set_price_qty)
+_HOOKED = {}
+
+
+def hooked_class():
+    """FIXNewOrderSingle subclass overriding every documented hook the builders call; each override first consults
+    `self.plan = [mode, k, exc]`: at the k-th hook call of the current builder it raises / calls clord_next() /
+    queries can_cancel, can_replace (recorded in self.seen); afterwards it always delegates to the base class"""
+    if "cls" in _HOOKED:
+        return _HOOKED["cls"]
+    import asyncio
+
+    from asyncfix.protocol.order_single import FIXNewOrderSingle
+
+    class HookedOrder(FIXNewOrderSingle):
+        plan = None
+        calls = 0
+        seen = None
+
+        def _hook(self):
+            plan, i = self.plan, self.calls
+            self.calls += 1
+            if plan and i == plan[1]:
+                if plan[0] == "raises":
+                    raise (asyncio.CancelledError("hook") if plan[2] == "Cancelled" else HookError("hook"))
+                if plan[0] == "bumps":
+                    self.clord_next()
+                if plan[0] == "reenters":
+                    import enum
+
+                    st = self.status
+                    self.seen = [str(st.value) if isinstance(st, enum.Enum) else repr(st), self.can_cancel(), self.can_replace()]
+
+        def set_instrument(self, m):
+            self._hook()
+            super().set_instrument(m)
+
+        def set_account(self, m):
+            self._hook()
+            super().set_account(m)
+
+        def set_price_qty(self, m, price, qty):
+            self._hook()
+            super().set_price_qty(m, price, qty)
+
+        def current_datetime(self):
+            self._hook()
+            return FIXNewOrderSingle.current_datetime()
+
+    _HOOKED["cls"] = HookedOrder
+    return HookedOrder
+
+
 def exc_kind(e: BaseException) -> str:
+    import asyncio
+
     from asyncfix.errors import FIXError, TagNotFoundError
+
+    if isinstance(e, (HookError, asyncio.CancelledError)):
+        return "Hook"
 
     if isinstance(e, TagNotFoundError):
         return "TagNotFound"
@@ -325,7 +387,7 @@ def order_obs(o) -> dict:
 # ---------------------------------------------------------------------------------------------
 class Link:
     def __init__(self, root: str, price: int, qty: int, ticker="TICK", side="1", ord_type="2", account="ACC",
-                 ptype="float", qtype="float", argint=False, enums=False):
+                 ptype="float", qtype="float", argint=False, enums=False, subclass=False):
         """ptype / qtype: Python type of the constructor's price / qty ('int' is honoured when the value is
         integral); argint: pass integral replace_req arguments as int.  The TYPE is a Python-only dimension:
         the model's numbers are grid integers whatever the Python type."""
@@ -337,8 +399,8 @@ class Link:
 
             side = FOrdSide(side)
             ord_type = FOrdType(ord_type)
-        self.order = FIXNewOrderSingle(root, ticker, side, typed(price, ptype == "int"), typed(qty, qtype == "int"),
-                                       ord_type, account)
+        cls = hooked_class() if subclass else FIXNewOrderSingle
+        self.order = cls(root, ticker, side, typed(price, ptype == "int"), typed(qty, qtype == "int"), ord_type, account)
         self.c2e = []   # real FIXMessages
         self.e2c = []   # abstract report dicts
         self.ex = RefExchange()
@@ -375,6 +437,15 @@ class Link:
         """perform one action; returns canonical result"""
         k = a[0]
         o = self.order
+        plan = None
+        if k in ("hNew", "hCancel", "hReplace"):
+            # builder whose overridden hook misbehaves: [hX, (p, q,) mode, k, exc]
+            k = "c" + k[1:]
+            plan = list(a[-3:])
+            plan[1] = plan[1] % HOOKS_OF[k]
+            a = [k] + list(a[1:-3])
+            if isinstance(o, hooked_class()):
+                o.plan, o.calls, o.seen = plan, 0, None
         if k in ("cNew", "cCancel", "cReplace"):
             try:
                 if k == "cNew":
@@ -387,9 +458,15 @@ class Link:
                     m = o.replace_req(p, q)
             except BaseException as e:  # noqa
                 return ["raise", exc_kind(e)]
+            finally:
+                if plan is not None:
+                    o.plan = None
             self.c2e.append(m)
             self.built.append(m.get("11", None))
-            return ["built"] + canon_request(m)
+            res = ["built"] + canon_request(m)
+            if plan is not None and plan[0] == "reenters" and getattr(o, "seen", None):
+                res.append(list(o.seen))
+            return res
         if k == "cRecv":
             if not self.e2c:
                 return ["empty"]
